@@ -25,12 +25,15 @@ RULE = ("classes over the serializable fragment (scalars, Enum by name, Array/Se
         "DateField (two formats)/DateTime/DateString/TimeString/EmailAddress/HostName/IPV4, strings whose text is a JSON document, "
         "each bare / Optional / Optional[Union[X, int]] / Array / Deque / Set / Map / Tuple / nested collections / nested class / "
         "compact single-field wrapper (own, inherited), every leaf x wrapper once (directed) and random mixes: the cases the Lean "
-        "model of the extension kinds covers (Sem/SerdeX.lean: Decimal, Enum by value, DateField/DateTime, core scalars in every "
-        "wrapper but AnyOf[X, int]) are corresponded with it (suite serdex: instance, document, round trip), the others are "
-        "oracle-only; for all of them the serialized form must equal the documented JSON form written down independently")
+        "model of the extension kinds covers (Sem/SerdeX.lean: Decimal, Enum by value / by name over IntEnum, DateField/DateTime, "
+        "DateString/TimeString/IPV4/HostName/EmailAddress, core scalars in every wrapper, compact wrappers included) are corresponded with it (suite serdex: instance, document, round trip), the others are "
+        "oracle-only; for all of them the serialized form must equal the documented JSON form written down independently; plus "
+        "classes with _enable_undefined_value (an Optional field set / explicitly None / Undefined: three states the document "
+        "tells apart and the round trip must keep); plus, on the main stream, the round trip through JSON TEXT and "
+        "serialize_field(Class.f, x.f) against the class-level document")
 ASSUMPTIONS = [
-    "mapper-free (key-renaming mappers: C07); compact wrappers, DateString/TimeString/HostName/IPV4/EmailAddress leaves and AnyOf[leaf, Integer] over extension leaves are not in the Lean model: the statement is executed on them on the real code only (oracle-only part of the extras stream)",
-    "float(Decimal), strptime and strftime are oracles of the model (tables per case; universally quantified in the theorems); a Decimal that is not a double is in the lossy clause",
+    "mapper-free (key-renaming mappers: C07); cases with no model line (a few wrappers of not-modelled leaves) are executed on the real code only (oracle-only part of the extras stream)",
+    "float(Decimal), Decimal(str), strptime, strftime and the format tests of DateString/TimeString/IPV4/HostName are oracles of the model (tables per case; universally quantified in the theorems); a Decimal that is not a double is in the lossy clause",
     "structures held at untyped positions (Anything, untyped Array/Map) are outside the model",
 ]
 
